@@ -45,8 +45,11 @@ _comp = st.one_of(
 
 
 @st.composite
-def _relpath(draw, i):
+def _relpath(draw, i, dotdot=False):
     comps = draw(st.lists(_comp, min_size=0, max_size=3))
+    if dotdot and draw(st.integers(0, 3)) == 0:
+        # a lexically un-normalised path that stays below the audio directory: site_a/../site_b/...
+        comps = comps + ["site_a", "..", "site_b"]
     return "/".join(comps + [f"rec_{i}" + draw(st.sampled_from([".wav", ".WAV", " (1).flac", ".é.wav"]))])
 
 
@@ -152,7 +155,7 @@ def collection_spec(draw, ctype=None, paths="plain"):
         recs.append(
             {
                 "uuid": draw(_uuid()),
-                "path": draw(_relpath(i)),
+                "path": draw(_relpath(i, dotdot=(paths == "dotdot"))),
                 "duration": draw(st.sampled_from([1.0, 10.0, 0.5, 3600.25])),
                 "channels": draw(st.integers(1, 4)),
                 "samplerate": draw(st.sampled_from([8000, 44100, 256000])),
